@@ -1,5 +1,6 @@
 """C17 - case and platform flags select a consistent matching mode (DESIGN.md section 5, C17)."""
 import itertools
+import re
 
 from .. import gen
 from ..common import F, G, flags_of, shape
@@ -98,13 +99,28 @@ def closed_universe(base, path_mode):
     return names
 
 
-def vectors(ctx, mod, text, extra, names, as_bytes=False):
+def vectors(ctx, mod, text, extra, names, as_bytes=False, entry='compile'):
     vec = {}
+    enc = (lambda x: x.encode('latin-1')) if as_bytes else (lambda x: x)
     for combo in COMBOS:
         flags = flags_of(combo + extra)
         try:
-            m = mod.compile(text.encode('latin-1') if as_bytes else text, flags=flags)
-            vec[combo] = tuple(m.match(n.encode('latin-1') if as_bytes else n) for n in names)
+            if entry == 'compile':
+                m = mod.compile(enc(text), flags=flags)
+                vec[combo] = tuple(m.match(enc(n)) for n in names)
+            elif entry == 'translate':
+                pos, neg = mod.translate(enc(text), flags=flags)
+                pos = [re.compile(x) for x in pos]
+                neg = [re.compile(x) for x in neg]
+                vec[combo] = tuple(any(p.fullmatch(enc(n)) for p in pos) and not any(q.fullmatch(enc(n)) for q in neg)
+                                   for n in names)
+            elif entry == 'oneshot':
+                fn = mod.fnmatch if mod is F else mod.globmatch
+                vec[combo] = tuple(fn(enc(n), enc(text), flags=flags) for n in names)
+            else:
+                fl = mod.filter if mod is F else mod.globfilter
+                kept = set(fl([enc(n) for n in names], enc(text), flags=flags))
+                vec[combo] = tuple(enc(n) in kept for n in names)
         except Exception as e:  # noqa: BLE001
             vec[combo] = f'raised {type(e).__name__}'
         ctx.evals(len(names))
@@ -126,6 +142,16 @@ def check_pattern(ctx, toks, path_mode, extra, key, base_names, bytes_too=False)
         if isinstance(v, str):
             bad(f'compile/match {v}', flags=list(combo))
             return
+    # (0) every entry point selects the same mode from the same flags
+    for entry in ('translate', 'oneshot', 'filter'):
+        v2 = vectors(ctx, mod, text, extra, names, entry=entry)
+        ctx.count('entry_point_vectors')
+        for combo in COMBOS:
+            if v2[combo] != vec[combo]:
+                i = 0 if isinstance(v2[combo], str) else next(i for i, (a, b) in enumerate(zip(v2[combo], vec[combo])) if a != b)
+                bad(f'{entry} selects a different matching mode than the compiled matcher under the same flags', flags=list(combo),
+                    name=names[i], compiled_got=vec[combo][i], other_got=v2[combo] if isinstance(v2[combo], str) else v2[combo][i])
+                return
     # (1) CASE wins, FORCEWIN+FORCEUNIX cancel
     for combo in COMBOS:
         canon = list(combo)
